@@ -313,6 +313,15 @@ def oracle(c, model_obs):
         if obs["result"][0] != "rejected":
             return ["%s: the method %r is not one of aes / xor / best and was not rejected with an error: %r" % (what, c["arg"], obs["result"])]
         return []
+    if c["kind"] == "other-value" and c["arg"] is not None and not isinstance(c["arg"], (str, dict)):
+        # a stored value that is neither null, nor text, nor a map is "of the wrong shape": rejected, never a value (falsy ones too)
+        if obs["result"][0] != "rejected":
+            return ["%s: the stored value %r is of the wrong shape and was not rejected with an error: %r" % (what, c["arg"], obs["result"])]
+        return []
+    if c["kind"] == "other-value" and isinstance(c["arg"], dict) and not ("method" in c["arg"] and "ciphertext" in c["arg"]):
+        if obs["result"][0] != "rejected":
+            return ["%s: the stored map %r lacks method / ciphertext and was not rejected with an error: %r" % (what, c["arg"], obs["result"])]
+        return []
     if not obs["usable"] or not isinstance(c["plain"], str) or c["kind"] in ("method-value", "other-value", "junk-base64"):
         # to_basic wrote null / refused (empty value, unknown declared method, unencodable text), or the stored
         # value is one of the free-form ones: the model decides these; the property itself only demands that
